@@ -5,11 +5,9 @@
    The [][2]int64 passed to SetInnerIDList / the constructors is stored AS IS (same backing array, no copy) and InnerIDList() returns it as is:
    in the sequence model the field is a reference into the caller's slices (`store`), so a later write by the caller, or through the slice the
    getter returned, is visible on both sides. The pure variant (field = the list itself) ties the objects to the groups of QuadkeyConv.v.
-   Also here: the statements that cite the regenerated constants (transform.quadkeyCheckZoom bounds, consts.InnerID*Index). *)
+   The statements that cite the regenerated constants live in GenC11.v: nothing the dispatch tables depend on imports the translator's output. *)
 From Coq Require Import ZArith Lia List Bool String Floats.
 From SID Require Import Base Quadkey QuadkeyConv AltKeyCore Ids.
-From SIDGen Require Generated.
-From SID Require GenEqCheck GenEqConst.
 Import ListNotations.
 Open Scope Z_scope.
 
@@ -222,45 +220,4 @@ Theorem groups_are_constructed_a oq oa E O ids gs : e2qa ids oq oa E O = Ok gs -
 Proof.
   unfold e2qa. intros Eq g Hg. destruct (conv_groups_generic oq oa (E, O) _ ids gs Eq) as (A & _). destruct (A g Hg) as (H1 & H2 & H3 & H4).
   split; [|exact H4]. destruct g as [hz vz pr ps]. cbn in *. subst. reflexivity.
-Qed.
-
-(* ---------- statements that cite the regenerated constants ---------- *)
-(* the zoom window of the quadkey conversions is the pair of bounds read from the source of transform.quadkeyCheckZoom *)
-Lemma gen_bounds : Generated.QuadkeyZoom_hZoom_min = 1 /\ Generated.QuadkeyZoom_hZoom_max = 31 /\
-                   Generated.QuadkeyZoom_vZoom_min = 0 /\ Generated.QuadkeyZoom_vZoom_max = 35.
-Proof.
-  pose proof GenEqCheck.gen_QuadkeyZoom_eq as E.
-  pose proof (f_equal (fun t => fst (fst (fst t))) E) as E1. pose proof (f_equal (fun t => snd (fst (fst t))) E) as E2.
-  pose proof (f_equal (fun t => snd (fst t)) E) as E3. pose proof (f_equal snd E) as E4. cbn [fst snd] in E1, E2, E3, E4. auto.
-Qed.
-Theorem qcheck_generated h v :
-  qcheck h v = (Generated.QuadkeyZoom_hZoom_min <=? h) && (h <=? Generated.QuadkeyZoom_hZoom_max) &&
-               (Generated.QuadkeyZoom_vZoom_min <=? v) && (v <=? Generated.QuadkeyZoom_vZoom_max).
-Proof. destruct gen_bounds as (E1 & E2 & E3 & E4). rewrite E1, E2, E3, E4. reflexivity. Qed.
-(* the round trip of the keys on exactly the horizontal zooms the source accepts *)
-Theorem decode_encode_generated h x y : Generated.QuadkeyZoom_hZoom_min <= h <= Generated.QuadkeyZoom_hZoom_max ->
-  0 <= x < 2 ^ h -> 0 <= y < 2 ^ h -> decode (encode h x y) h = (x, y).
-Proof.
-  destruct gen_bounds as (E1 & E2 & _ & _). rewrite E1, E2. intros Hh. apply decode_encode. lia.
-Qed.
-(* innerID[i] of a [2]int64 *)
-Definition inner_at (p : pair) (i : Z) : Z := nth (Z.to_nat i) [fst p; snd p] 0.
-Lemma inner_at_generated p : inner_at p Generated.InnerIDQuadkeyIndex = fst p /\ inner_at p Generated.InnerIDAltitudekeyIndex = snd p.
-Proof.
-  pose proof (f_equal fst GenEqConst.gen_InnerID_eq) as E1. pose proof (f_equal snd GenEqConst.gen_InnerID_eq) as E2. cbn [fst snd] in E1, E2.
-  rewrite E1, E2. split; reflexivity.
-Qed.
-(* altitude-key pairs, read with the exported index constants: innerID[InnerIDQuadkeyIndex] is the interleaved key of a zoom-changed tile,
-   innerID[InnerIDAltitudekeyIndex] an altitude key of that ID's range *)
-Theorem e2qa_spec_indexed es oq oa E O : qcheck oq oa = true -> Forall valid es ->
-  (forall i, In i es -> is_ok (z2key (ef i) (ev i) oa E O) = true) ->
-  exists gs, e2qa (map print_eid es) oq oa E O = Ok gs /\
-    forall p, In p (List.concat (map g_pairs gs)) ->
-      exists i x' y' mn mx, In i es /\ rel1 (eh i) (ex i) oq x' /\ rel1 (eh i) (ey i) oq y' /\
-        inner_at p Generated.InnerIDQuadkeyIndex = interleave oq x' y' /\
-        z2key (ef i) (ev i) oa E O = Ok (mn, mx) /\ mn <= inner_at p Generated.InnerIDAltitudekeyIndex <= mx.
-Proof.
-  intros Hq Hv Hz. destruct (e2qa_spec es oq oa E O Hq Hv Hz) as (gs & Eq & _ & _ & S). exists gs. split; [exact Eq|].
-  intros [q k] Hp. apply S in Hp. destruct Hp as (i & x' & y' & mn & mx & A & B & C & D & F & G).
-  destruct (inner_at_generated (q, k)) as (I1 & I2). rewrite I1, I2. cbn [fst snd]. exists i, x', y', mn, mx. tauto.
 Qed.
